@@ -13,7 +13,7 @@ import (
 )
 
 var sqlNameAlpha = []string{"t", "users", "a", "b", "c", "a\"b", "a`b", "x\"; DROP TABLE t; --", "we ird", "q'q", "back\\slash",
-	"semi;colon", "dash--dash", "/*c*/", "\"", "`", "\"\"", "é", "A", "col 1", "sel\"ect\"", "a\"\"b", "$1", "?",
+	"semi;colon", "dash--dash", "growth%", "margin %d", "100%s %v", "/*c*/", "\"", "`", "\"\"", "é", "A", "col 1", "sel\"ect\"", "a\"\"b", "$1", "?",
 	"abcdefghijklmnopqrstuvwxyzabcdefghijklmnopqrstuvwxyzabcdefghij\"z", "abcdefghijklmnopqrstuvwxyzabcdefghijklmnopqrstuvwxyzabcdefghijk`z"}
 
 type sqlwScenario struct {
@@ -49,6 +49,9 @@ func genSqlwScenario(r *Rng, names bool) sqlwScenario {
 			for i := range d {
 				d[i] = nil
 			}
+		}
+		if k == kTime && n > 0 && r.Chance(40) {
+			d[r.Intn(n)] = time.Time{} // the zero time is a value, not NULL
 		}
 		df.Columns[pool[perm[j]]] = &dataframe.Column[any]{Name: pool[perm[j]], Data: d}
 	}
@@ -92,6 +95,13 @@ func genSqlwScenario(r *Rng, names bool) sqlwScenario {
 // runSqlw executes the scenario with the driver failing call number failAt (-1: none).
 func runSqlw(sc sqlwScenario, failAt int) (string, []recCall) {
 	return runSqlwCtx(sc, failAt, false)
+}
+
+// runSqlwNext: no call fails, but Rows.Next of the table-existence query returns an error
+func runSqlwNext(sc sqlwScenario) (string, []recCall) {
+	nextFailExists = true
+	defer func() { nextFailExists = false }()
+	return runSqlwCtx(sc, -1, false)
 }
 
 // runSqlwCtx: with cancel=true the context is cancelled at call failAt (only the Context entry points)
@@ -215,6 +225,14 @@ func genSqlw(r *Rng, id string, mode string) []string {
 			e := NewEnc()
 			emitSqlw(e, sc, k, st, cs)
 			lines = append(lines, e.Line(id+"f"+itoa(k), "SQLW"))
+		}
+		// the existence query succeeds but fetching its row fails (driver.Rows.Next)
+		{
+			st, cs := runSqlwNext(sc)
+			e := NewEnc()
+			emitSqlw(e, sc, 1, st, cs)
+			e.Tok("NEXTFAIL")
+			lines = append(lines, e.Line(id+"n", "SQLW"))
 		}
 		// cancellation of the context at every call (Context entry points only)
 		if sc.entry == 1 || sc.entry == 3 {
